@@ -26,5 +26,8 @@ func Run(cfg hx.Config) error {
 	runApk(r, rnd.Fork(), cfg)
 	runOsRelease(r, rnd.Fork(), cfg)
 	runPython(r, rnd.Fork(), cfg)
+	if err := runRpm(r, rnd.Fork(), cfg); err != nil {
+		return err
+	}
 	return r.Close()
 }
